@@ -5,7 +5,14 @@ import (
 	"os"
 	"testing"
 
+	"pgregory.net/rapid"
+
+	"verif/harness/asam"
 	"verif/harness/evid"
+	"verif/harness/iosm"
+	"verif/harness/linuxm"
+	"verif/harness/nsxm"
+	"verif/harness/panm"
 )
 
 // Exported surface for checks that live in their own package (one test
@@ -20,16 +27,16 @@ func Judge(t interface {
 	return judge(t, ev, o, c, sample)
 }
 
-func PassV(nt bool, classes ...string) Verdict      { return pass(nt, classes...) }
-func FailV(sig, format string, a ...any) Verdict    { return fail(sig, format, a...) }
-func DiscardV(reason string) Verdict                { return discard(reason) }
-func UncoveredV(reason string) Verdict              { return uncovered(reason) }
-func Tier() string                                  { return tier() }
-func Thorough() bool                                { return thorough() }
-func EnvInt(name string, def int) int               { return envInt(name, def) }
-func Finish(t *testing.T, ev *evid.Collector)       { t.Cleanup(func() { ev.Write() }) }
-func RepoDir() string                               { return repoDir() }
-func VerifDir() string                              { return verifDir() }
+func PassV(nt bool, classes ...string) Verdict   { return pass(nt, classes...) }
+func FailV(sig, format string, a ...any) Verdict { return fail(sig, format, a...) }
+func DiscardV(reason string) Verdict             { return discard(reason) }
+func UncoveredV(reason string) Verdict           { return uncovered(reason) }
+func Tier() string                               { return tier() }
+func Thorough() bool                             { return thorough() }
+func EnvInt(name string, def int) int            { return envInt(name, def) }
+func Finish(t *testing.T, ev *evid.Collector)    { t.Cleanup(func() { ev.Write() }) }
+func RepoDir() string                            { return repoDir() }
+func VerifDir() string                           { return verifDir() }
 
 // ReplayMain re-runs the oracle of a saved failing case without the
 // generator. The test fails iff the case still violates the property.
@@ -58,4 +65,26 @@ func ReplayMain(t *testing.T, file string) {
 	default:
 		t.Logf("REPLAY-NA %s", v.Reason)
 	}
+}
+
+// GenCase draws a device/target pair of the family from its model's
+// generator and returns it as a case of the given property (used by C20's
+// structural mutants).
+func GenCase(rt *rapid.T, family, property string) *Case {
+	switch family {
+	case "asa":
+		return asaCase(property, asam.GenPair(rt, asam.GenOpts{Decorate: true}))
+	case familyASAVPN:
+		c := asaVPNCase(property, asam.GenPair(rt, asam.GenOpts{VPN: true, Decorate: true}))
+		return c
+	case "ios":
+		return iosCase(property, iosm.GenPair(rt, iosm.GenOpts{Decorate: true}))
+	case "panos":
+		return panCase(property, panm.GenPair(rt, panm.GenOpts{}))
+	case "nsx":
+		return nsxCase(property, nsxm.GenPair(rt, nsxm.GenOpts{}))
+	case "linux":
+		return linuxCase(property, linuxm.GenPair(rt, linuxm.GenOpts{Routes: true}))
+	}
+	return nil
 }
